@@ -313,6 +313,23 @@ func c02HeaderText(b *core.B) {
 }
 
 func c02Run(b *core.B) {
+	if b.Batch == 0 && b.Begin("many pieces: 120000 iterations of text and values") {
+		// the output is the concatenation of all of it, however much it is
+		b.NonTrivialStr("many-pieces")
+		b.Count("templates-with-more-than-100000-pieces")
+		res := render(b, `<%= for (i) in between(0, 120001) { %>x<%= "y" %><% } %>|<%= for (i) in between(0, 60001) { %><%= i %>,<% } %>end`, plush.NewContext())
+		if res.Pan == nil {
+			var want strings.Builder
+			want.WriteString(strings.Repeat("xy", 120000) + "|")
+			for i := 1; i <= 60000; i++ {
+				fmt.Fprintf(&want, "%d,", i)
+			}
+			want.WriteString("end")
+			if res.Err != nil || res.Out != want.String() {
+				b.Violate("g1:wrong-output|many-pieces", fmt.Sprintf("err=%v, %d bytes of output, want %d", res.Err, len(res.Out), want.Len()))
+			}
+		}
+	}
 	if b.Batch == 0 {
 		c02HeaderText(b)
 	}
